@@ -1,12 +1,21 @@
 import PsV.Proofs.FitQuad
 import PsV.Proofs.FitDiffs
+import PsV.Proofs.FitPosDef
+import PsV.Proofs.NormalEqExists
+import PsV.Proofs.PolyReproNd
+import PsV.Proofs.PolyReproGen
+import PsV.Proofs.ElimPosDef
 /-!
 # C09 — the unconstrained fit minimises the penalised weighted least-squares objective
 
 Property theorems only; helper lemmas and the statement-level definitions (`Mf`, `rf`, `objConst`,
 `penaltyNK`, `penaltyGram`, `PenaltyVanishes`, `DerivVanishes`, `RowsEquiv`, the example problem `exP`)
 live in `PsV/Proofs/FitQuad.lean`, the linear algebra of the normal equations in
-`PsV/Proofs/NormalEq.lean`.  The carrier is any ordered field whose `Arith` bundle is lawful; `Rat` with
+`PsV/Proofs/NormalEq.lean` / `NormalEqExists.lean`, positive definiteness in `PsV/Proofs/FitPosDef.lean`
+(`fitVal P v r = (Bv)_r`), polynomial data in `PsV/Proofs/PolyRepro1d.lean`, `TensorCoef.lean`, `PolyReproNd.lean`
+(`polyVal`, `polyCoef`, `PolyDegOK`, `InSupport`, `KnotsSorted`, `PolyData`, the example problem `polyP`), `Marsden1d.lean`,
+`PolyReproGen.lean` (`dualCoef`, `polyCoefGSum`, `polyValGSum`, `PolyDegOKG`, `PolyDataG`, the example `polyP2`); the
+elimination certificate in `PsV/Proofs/ElimPosDef.lean`.  The carrier is any ordered field whose `Arith` bundle is lawful; `Rat` with
 the instance the compiled driver executes is one.
 
 Notation: `N = P.ncoef`, `R = P.rows.size`, `Mf P i j = (specM P).get i j`, `rf P i = (specR P).getD i 0`.
@@ -104,6 +113,83 @@ example : PosDef exP.ncoef (Mf exP) ∧ (∀ i < exP.ncoef, mulVec exP.ncoef (Mf
     ∧ ∀ c' : Nat → Rat, objective exP (fun _ => 1) ≤ objective exP c' :=
   ⟨exP_posDef, exP_normal, ((C09_fit_is_minimiser exP _ exP_posDef).1).1 exP_normal⟩
 
+/-! ## 3b. when the normal matrix is positive definite; existence of the minimiser -/
+
+/-- **Characterisation.**  Weights and smoothing strengths non-negative: the normal matrix is positive definite iff the
+only coefficient vector whose spline vanishes at every datum of non-zero weight (`fitVal P v r = Σ_i B[r,i] v_i = 0`) and
+on which every penalty term with `λ_d ≠ 0` vanishes is the zero vector.  (Replaces the per-instance elimination of the
+driver as the *reason* for well-posedness; the driver's pivots remain a per-instance check.) -/
+theorem normal_matrix_posDef_iff (P : FitProblem α) (hw : ∀ r < P.rows.size, 0 ≤ rowW P r)
+    (hl : ∀ l ∈ P.smooth, 0 ≤ l) :
+    PosDef P.ncoef (Mf P) ↔
+      ∀ v : Nat → α, (∀ r < P.rows.size, rowW P r ≠ 0 → fitVal P v r = 0) →
+        PenaltyVanishes P.dims P.smooth P.porder P.ncoef v → ∀ i < P.ncoef, v i = 0 :=
+  posDef_iff_trivial_kernel P hw hl
+
+/-- **Sufficient condition.**  `BᵀWB + Σ_d λ_d K_dᵀK_d` is positive definite when the weights are non-negative and
+positive on a set `S` of data rows on which the design matrix has full column rank, and `λ_d ≥ 0` (penalty PSD). -/
+theorem normal_matrix_posDef_of_full_rank (P : FitProblem α) (hw : ∀ r < P.rows.size, 0 ≤ rowW P r)
+    (hl : ∀ l ∈ P.smooth, 0 ≤ l) (S : Nat → Prop) (hS : ∀ r, S r → r < P.rows.size ∧ 0 < rowW P r)
+    (hrank : ∀ v : Nat → α, (∀ r, S r → fitVal P v r = 0) → ∀ i < P.ncoef, v i = 0) :
+    PosDef P.ncoef (Mf P) := posDef_of_full_rank P hw hl S hS hrank
+
+/-- A positive-definite system of normal equations has a solution (finite dimension: injective ⇒ surjective). -/
+theorem normal_eq_solvable (P : FitProblem α) (hP : PosDef P.ncoef (Mf P)) :
+    ∃ c : Nat → α, ∀ i < P.ncoef, mulVec P.ncoef (Mf P) c i = rf P i := posDef_solvable hP (rf P)
+
+/-- **Well-posed problems have exactly one minimiser, and it is the solution of the normal equations.**  Under the
+sufficient condition above there is a coefficient vector `c` with `M c = r`; it minimises the penalised weighted
+least-squares objective of the property, and every minimiser agrees with it on `[0, N)`. -/
+theorem C09_wellposed_unique_minimiser (P : FitProblem α) (hw : ∀ r < P.rows.size, 0 ≤ rowW P r)
+    (hl : ∀ l ∈ P.smooth, 0 ≤ l) (S : Nat → Prop) (hS : ∀ r, S r → r < P.rows.size ∧ 0 < rowW P r)
+    (hrank : ∀ v : Nat → α, (∀ r, S r → fitVal P v r = 0) → ∀ i < P.ncoef, v i = 0) :
+    ∃ c : Nat → α, (∀ i < P.ncoef, mulVec P.ncoef (Mf P) c i = rf P i)
+      ∧ (∀ c' : Nat → α, objective P c ≤ objective P c')
+      ∧ ∀ c' : Nat → α, objective P c' ≤ objective P c → ∀ i < P.ncoef, c' i = c i := by
+  have hP := posDef_of_full_rank P hw hl S hS hrank
+  obtain ⟨c, hc⟩ := posDef_solvable hP (rf P)
+  exact ⟨c, hc, ((C09_fit_is_minimiser P c hP).1).1 hc, (C09_fit_is_minimiser P c hP).2 hc⟩
+
+/-- Non-vacuity: in `exP` the weights are `1, 1, 0`, `λ = 1`, and on the rows `S = {0, 1}` the design matrix is the
+2 × 2 identity, so it has full column rank there. -/
+example : (∀ r < exP.rows.size, 0 ≤ rowW exP r) ∧ (∀ l ∈ exP.smooth, 0 ≤ l)
+    ∧ (∀ r, (r = 0 ∨ r = 1) → r < exP.rows.size ∧ 0 < rowW exP r)
+    ∧ (∀ v : Nat → Rat, (∀ r, (r = 0 ∨ r = 1) → fitVal exP v r = 0) → ∀ i < exP.ncoef, v i = 0) := by
+  have e00 : designEntry exP 0 0 = 1 := by decide +kernel
+  have e01 : designEntry exP 0 1 = 0 := by decide +kernel
+  have e10 : designEntry exP 1 0 = 0 := by decide +kernel
+  have e11 : designEntry exP 1 1 = 1 := by decide +kernel
+  refine ⟨?_, ?_, ?_, ?_⟩
+  · intro r hr
+    have hr' : r < 3 := hr
+    have : r = 0 ∨ r = 1 ∨ r = 2 := by omega
+    rcases this with rfl | rfl | rfl <;> decide +kernel
+  · intro l hl
+    have : l = 1 := by simpa [exP] using hl
+    rw [this]; norm_num
+  · rintro r (rfl | rfl) <;> exact ⟨by decide, by decide +kernel⟩
+  · intro v hv i hi
+    rw [exP_ncoef] at hi
+    have h0 := hv 0 (Or.inl rfl)
+    have h1 := hv 1 (Or.inr rfl)
+    simp only [fitVal, exP_ncoef, Finset.sum_range_succ, Finset.sum_range_zero, e00, e01, e10, e11] at h0 h1
+    have : i = 0 ∨ i = 1 := by omega
+    rcases this with rfl | rfl
+    · linarith
+    · linarith
+
+/-- **The driver's verdict is a certificate.**  `psvdriver C09` classifies a generated problem as well-posed when the exact
+elimination `specFit P = solveSPD (specM P) (specR P)` (no pivoting, stops at the first non-positive pivot) succeeds.
+If it succeeds the normal matrix IS positive definite (completing the square along the Schur complements), so every
+theorem of this file that assumes `PosDef` applies to every instance the check judges. -/
+theorem specFit_certifies_posDef (P : FitProblem α) (c : Array α) (h : specFit P = some c) :
+    PosDef P.ncoef (Mf P) := specFit_posDef P c h
+
+/-- Non-vacuity: the elimination succeeds on `exP`. -/
+example : ∃ c, specFit exP = some c := by
+  have h : (specFit exP).isSome = true := by decide +kernel
+  exact Option.isSome_iff_exists.1 h
+
 /-! ## 4. data of weight zero are irrelevant -/
 
 /-- Dropping the data rows with `w = 0` changes neither the normal matrix, nor the right-hand side, nor
@@ -184,13 +270,147 @@ vanish (`DerivVanishes`), then `c0` solves the normal equations whatever `P.smoo
 unique minimiser when `M` is positive definite, by `C09_fit_is_minimiser`).
 Missing for the polynomial statement (Marsden's identity): (a) a polynomial of degree `< p_d ≤ order_d`
 in every variable has a B-spline coefficient vector `c0` on the knots of `P` (on the fully supported range),
-and (b) the `p_d`-th derivative coefficients of that `c0` are all zero. -/
+and (b) the `p_d`-th derivative coefficients of that `c0` are all zero.
+Both are discharged below: first for degree ≤ 1 in each variable with the Greville abscissae
+(`poly_below_penalty_reproduced`, `poly_sum_below_penalty_reproduced`, `constant_data_reproduced`), then for every degree
+(`poly_any_degree_below_penalty_reproduced`, Marsden's identity).  This theorem is kept: the full ones are its corollaries. -/
 theorem poly_below_penalty_reproduced_partial (P : FitProblem α) (c0 : Nat → α)
     (hz : ∀ r < P.rows.size, rowW P r ≠ 0 →
       rowZ P r = ∑ i ∈ Finset.range P.ncoef, designEntry P r i * c0 i)
     (hder : DerivVanishes P.dims P.porder P.ncoef c0) :
     ∀ i < P.ncoef, mulVec P.ncoef (Mf P) c0 i = rf P i :=
   normal_eq_of_generated P c0 hz (penaltyVanishes_of_deriv _ _ _ _ _ hder)
+
+/-! ### polynomial data: the hypothesis of the partial theorem discharged for degrees 0 and 1 per variable -/
+
+/-- **Polynomial data of degree below the penalty order are reproduced for every smoothing strength** — proved for
+products of affine factors `z = Π_d (a_d + b_d x_d)` (degree ≤ 1 in each variable; `qs = [(a_d, b_d)]`).
+Hypotheses: C-ordered strides; one coordinate vector and one penalty order per dimension; sorted knots (repeated knots
+allowed); in every dimension the degree of the factor is below the penalty order (`PolyDegOK`: `b_d = 0 ∧ p_d ≥ 1`, or
+`p_d ≥ 2`, `order_d ≥ 1` and no interior knot of multiplicity `order_d`); every datum of non-zero weight lies in the fully
+supported range `Π_d [knots_d[order_d], knots_d[naxes_d])` and carries the polynomial's value (`PolyData`).
+Conclusion: the explicit coefficient vector `polyCoef P.dims qs`, `c_i = Π_d (a_d + b_d ξ_{d,i_d})` with `ξ` the Greville
+abscissae, solves the normal equations whatever `P.smooth` is — no existence hypothesis left (partition of unity
+`Bind_sum_one`, linear precision `Bind_sum_greville`, factorisation of the Kronecker sum `sum_compProd`, vanishing
+derivative coefficients `derivCoef_const`, `derivCoef_affine`, `derivVanishes_compProd`). -/
+theorem poly_below_penalty_reproduced (P : FitProblem α) (qs : List (α × α))
+    (hst : StridesRowMajor P.dims) (hc : P.coords.length = P.dims.length) (hq : qs.length = P.dims.length)
+    (hp : P.porder.length = P.dims.length) (hsorted : KnotsSorted P.dims)
+    (hdeg : PolyDegOK P.dims qs P.porder) (hz : PolyData P qs) :
+    ∀ i < P.ncoef, mulVec P.ncoef (Mf P) (polyCoef P.dims qs) i = rf P i :=
+  poly_below_penalty_reproduced_partial P (polyCoef P.dims qs)
+    (polyData_generated P qs hst hc hq hsorted (ordOK_of_degOK P.dims qs P.porder hq hp hdeg) hz)
+    (derivVanishes_polyCoef P.dims qs P.porder P.ncoef hst hdeg)
+
+/-- … and for finite sums of such products, i.e. for **every polynomial of degree ≤ 1 in each variable** whose degree in
+`x_d` is below `p_d` (a polynomial of coordinate degree ≤ 1 is a sum of products of affine factors). -/
+theorem poly_sum_below_penalty_reproduced (P : FitProblem α) (terms : List (List (α × α)))
+    (hst : StridesRowMajor P.dims) (hc : P.coords.length = P.dims.length)
+    (hp : P.porder.length = P.dims.length) (hsorted : KnotsSorted P.dims)
+    (hterms : ∀ qs ∈ terms, qs.length = P.dims.length ∧ PolyDegOK P.dims qs P.porder)
+    (hz : PolyDataSum P terms) :
+    ∀ i < P.ncoef, mulVec P.ncoef (Mf P) (polyCoefSum P.dims terms) i = rf P i :=
+  poly_below_penalty_reproduced_partial P (polyCoefSum P.dims terms)
+    (polyDataSum_generated P terms hst hc hp hsorted hterms hz)
+    (derivVanishes_polyCoefSum P.dims terms P.porder P.ncoef hst (fun qs h => (hterms qs h).2))
+
+/-- Degree 0 spelled out: constant data `z = a` (at the data of non-zero weight, inside the fully supported range) with
+every penalty order at least 1 are reproduced by the constant coefficient vector, for every smoothing strength. -/
+theorem constant_data_reproduced (P : FitProblem α) (a : α) (hne : P.dims ≠ [])
+    (hst : StridesRowMajor P.dims) (hc : P.coords.length = P.dims.length)
+    (hp : P.porder.length = P.dims.length) (hsorted : KnotsSorted P.dims) (hp1 : ∀ p ∈ P.porder, 1 ≤ p)
+    (hz : ∀ r < P.rows.size, rowW P r ≠ 0 →
+      ∃ xs, rowPoint P r = some xs ∧ InSupport P.dims xs ∧ rowZ P r = a) :
+    ∀ i < P.ncoef, mulVec P.ncoef (Mf P) (fun _ => a) i = rf P i := by
+  have hfun : polyCoef P.dims (constQs P.dims a) = fun _ => a := by
+    funext i; exact polyCoef_constQs P.dims hne a i
+  rw [← hfun]
+  refine poly_below_penalty_reproduced P (constQs P.dims a) hst hc (constQs_length _ _) hp hsorted
+    (polyDegOK_constQs P.dims a P.porder hp1) ?_
+  intro r hr hw
+  obtain ⟨xs, h1, h2, h3⟩ := hz r hr hw
+  refine ⟨xs, h1, h2, ?_⟩
+  rw [h3, polyVal_constQs P.dims hne a xs (by rw [rowPoint_length P r xs h1, hc])]
+
+/-- … hence, when the normal matrix is positive definite, the fit of polynomial data is that polynomial's coefficient
+vector: it is the unique minimiser (for every smoothing strength). -/
+theorem poly_below_penalty_unique_minimiser (P : FitProblem α) (qs : List (α × α))
+    (hst : StridesRowMajor P.dims) (hc : P.coords.length = P.dims.length) (hq : qs.length = P.dims.length)
+    (hp : P.porder.length = P.dims.length) (hsorted : KnotsSorted P.dims)
+    (hdeg : PolyDegOK P.dims qs P.porder) (hz : PolyData P qs) (hP : PosDef P.ncoef (Mf P)) :
+    (∀ c' : Nat → α, objective P (polyCoef P.dims qs) ≤ objective P c')
+      ∧ ∀ c' : Nat → α, objective P c' ≤ objective P (polyCoef P.dims qs) →
+          ∀ i < P.ncoef, c' i = polyCoef P.dims qs i :=
+  have hN := poly_below_penalty_reproduced P qs hst hc hq hp hsorted hdeg hz
+  ⟨((C09_fit_is_minimiser P _ hP).1).1 hN, (C09_fit_is_minimiser P _ hP).2 hN⟩
+
+/-- Non-vacuity: `polyP` — two dimensions, orders 2 × 1, 3 × 2 coefficients, penalty order 2 and `λ = (3, 1/2)`, four data
+on the polynomial `(1 + 2x)(3 − y)` inside the fully supported range plus one datum of weight 0 off it — satisfies every
+hypothesis; so `c_i = (1 + 2ξ_{i_0})(3 − η_{i_1})` solves its normal equations. -/
+example : StridesRowMajor polyP.dims ∧ polyP.coords.length = polyP.dims.length
+    ∧ polyQs.length = polyP.dims.length ∧ polyP.porder.length = polyP.dims.length ∧ KnotsSorted polyP.dims
+    ∧ PolyDegOK polyP.dims polyQs polyP.porder ∧ PolyData polyP polyQs :=
+  ⟨polyP_strides, rfl, rfl, rfl, polyP_sorted, polyP_degOK, polyP_data⟩
+
+example : ∀ i < polyP.ncoef, mulVec polyP.ncoef (Mf polyP) (polyCoef polyP.dims polyQs) i = rf polyP i :=
+  poly_below_penalty_reproduced polyP polyQs polyP_strides rfl rfl rfl polyP_sorted polyP_degOK polyP_data
+
+/-- Non-vacuity (sum of products, constants): the same problem read as the sum of the two products
+`(1 + 2x)·3` and `(1 + 2x)·(−y)`; and `exP` has constant data `z = 1`, penalty order 1. -/
+example : (∀ qs ∈ [[((1 : Rat), (2 : Rat)), (3, 0)], [(1, 2), (0, -1)]],
+      qs.length = polyP.dims.length ∧ PolyDegOK polyP.dims qs polyP.porder) := by
+  intro qs hqs
+  simp only [List.mem_cons, List.not_mem_nil, or_false] at hqs
+  rcases hqs with rfl | rfl
+  · exact ⟨rfl, polyP_degOK.1, Or.inl ⟨rfl, by decide⟩, trivial⟩
+  · exact ⟨rfl, polyP_degOK.1, polyP_degOK.2.1, trivial⟩
+
+example : exP.dims ≠ [] ∧ StridesRowMajor exP.dims ∧ exP.coords.length = exP.dims.length
+    ∧ exP.porder.length = exP.dims.length ∧ (∀ p ∈ exP.porder, 1 ≤ p) := by
+  refine ⟨by simp [exP], rfl, rfl, rfl, ?_⟩
+  intro p hp
+  have : p = 1 := by simpa [exP] using hp
+  omega
+
+/-- **Polynomial data of degree below the penalty order are reproduced for every smoothing strength — any degree.**
+The data are values of `Σ_terms Π_d (Σ_j a_{d,j} x_d^j)` (`terms`: per term and dimension the list of monomial
+coefficients; every polynomial is such a sum), each factor of degree `< p_d` and `≤ order_d` (`PolyDegOKG`, which also asks
+that the knot spans the derivative recurrence divides by are non-degenerate: `knots[m+q+1] ≠ knots[m+order+1]` for
+`q < p_d`, i.e. interior knots of multiplicity at most `order_d − p_d + 1`), at points of the fully supported range.
+Then the explicit coefficient vector given by Marsden's identity, `c_i = Σ_terms Π_d Σ_j a_{d,j}·e_j(t_{i_d+1..i_d+order})/C(order, j)`
+(`polyCoefGSum`), solves the normal equations whatever `P.smooth` is.  This is the full statement asked for beside
+`poly_below_penalty_reproduced_partial`: Marsden's identity (`Bind_sum_monomial`) and the vanishing of the `p`-th derivative
+coefficients of the dual coefficients of `x^j`, `j < p` (`derivCoef_monomial`), are theorems. -/
+theorem poly_any_degree_below_penalty_reproduced (P : FitProblem α) (terms : List (List (List α)))
+    (hst : StridesRowMajor P.dims) (hc : P.coords.length = P.dims.length)
+    (hp : P.porder.length = P.dims.length) (hsorted : KnotsSorted P.dims)
+    (hterms : ∀ ass ∈ terms, ass.length = P.dims.length ∧ PolyDegOKG P.dims ass P.porder)
+    (hz : PolyDataG P terms) :
+    ∀ i < P.ncoef, mulVec P.ncoef (Mf P) (polyCoefGSum P.dims terms) i = rf P i :=
+  poly_below_penalty_reproduced_partial P (polyCoefGSum P.dims terms)
+    (polyDataG_generated P terms hst hc hp hsorted hterms hz)
+    (derivVanishes_polyCoefGSum P.dims terms P.porder P.ncoef hst (fun ass h => (hterms ass h).2))
+
+/-- … and it is the unique minimiser when the normal matrix is positive definite. -/
+theorem poly_any_degree_unique_minimiser (P : FitProblem α) (terms : List (List (List α)))
+    (hst : StridesRowMajor P.dims) (hc : P.coords.length = P.dims.length)
+    (hp : P.porder.length = P.dims.length) (hsorted : KnotsSorted P.dims)
+    (hterms : ∀ ass ∈ terms, ass.length = P.dims.length ∧ PolyDegOKG P.dims ass P.porder)
+    (hz : PolyDataG P terms) (hP : PosDef P.ncoef (Mf P)) :
+    (∀ c' : Nat → α, objective P (polyCoefGSum P.dims terms) ≤ objective P c')
+      ∧ ∀ c' : Nat → α, objective P c' ≤ objective P (polyCoefGSum P.dims terms) →
+          ∀ i < P.ncoef, c' i = polyCoefGSum P.dims terms i :=
+  have hN := poly_any_degree_below_penalty_reproduced P terms hst hc hp hsorted hterms hz
+  ⟨((C09_fit_is_minimiser P _ hP).1).1 hN, (C09_fit_is_minimiser P _ hP).2 hN⟩
+
+/-- Non-vacuity: `polyP2` — orders 3 × 1, 5 × 2 coefficients, penalty orders (3, 2), `λ = (2, 5)`, four data on
+`x²(1 − y) + 3` inside the fully supported range `[3,5) × [1,2)` plus one datum of weight 0 off it — satisfies every
+hypothesis. -/
+example : StridesRowMajor polyP2.dims ∧ polyP2.coords.length = polyP2.dims.length
+    ∧ polyP2.porder.length = polyP2.dims.length ∧ KnotsSorted polyP2.dims
+    ∧ (∀ ass ∈ polyTerms2, ass.length = polyP2.dims.length ∧ PolyDegOKG polyP2.dims ass polyP2.porder)
+    ∧ PolyDataG polyP2 polyTerms2 :=
+  ⟨polyP2_strides, rfl, rfl, polyP2_sorted, polyP2_terms, polyP2_data⟩
 
 /-- `DerivVanishes` written out for one more dimension. -/
 theorem derivVanishes_cons (d : Dim α) (ds : List (Dim α)) (p : Nat) (ps : List Nat) (N : Nat)
